@@ -731,3 +731,234 @@ func checkIndexRoot(p *Program, r *Report) {
 	}
 	r.floor("INDEX-ROOT", n, 1, "stores to a section's IndexOffset")
 }
+
+// LOG-DEFLATED (C14, C15): the format has no stored log block - a block of type
+// 'g' is its 4-byte header followed by one zlib stream, and the C reader
+// inflates every 'g' block unconditionally.  Decided on the control-flow graph.
+// Writer side: in a function that branches on "type == 'g'" and deflates in
+// that branch, every return dominated by the branch hands out the deflater's
+// buffer (bytes.Buffer.Bytes of the buffer, or the result of a helper all of
+// whose returns do).  Reader side: from the branch "type == 'g'" no successful
+// return is reachable without passing a call of the inflater.
+func checkLogDeflated(p *Program, r *Report) {
+	calls := func(f *ssa.Function, names ...string) bool {
+		dc := directCallees(f)
+		for _, n := range names {
+			if dc[n] {
+				return true
+			}
+		}
+		return false
+	}
+	isBufBytes := func(v ssa.Value) bool {
+		c, ok := v.(*ssa.Call)
+		if !ok {
+			return false
+		}
+		cal := c.Call.StaticCallee()
+		return cal != nil && funcKey(cal) == "(*bytes.Buffer).Bytes"
+	}
+	// helpers that deflate: call the zlib writer and return only buffer bytes
+	deflating := map[*ssa.Function]bool{}
+	inflating := map[*ssa.Function]bool{}
+	for _, f := range p.Funcs {
+		if f.Parent() != nil {
+			continue
+		}
+		if calls(f, "compress/zlib.NewReader") {
+			inflating[f] = true
+		}
+		if !calls(f, "compress/zlib.NewWriterLevel", "compress/zlib.NewWriter") || isLogIn(f) {
+			continue
+		}
+		all, n := true, 0
+		for _, b := range f.Blocks {
+			if ret, ok := b.Instrs[len(b.Instrs)-1].(*ssa.Return); ok && len(ret.Results) > 0 {
+				n++
+				if !isBufBytes(ret.Results[0]) {
+					all = false
+				}
+			}
+		}
+		if all && n > 0 {
+			deflating[f] = true
+		}
+	}
+	var deflated func(v ssa.Value, seen map[ssa.Value]bool) bool
+	deflated = func(v ssa.Value, seen map[ssa.Value]bool) bool {
+		if seen[v] {
+			return true
+		}
+		seen[v] = true
+		switch x := v.(type) {
+		case *ssa.Call:
+			if isBufBytes(x) {
+				return true
+			}
+			if cal := x.Call.StaticCallee(); cal != nil && deflating[cal] {
+				return true
+			}
+		case *ssa.Extract:
+			if c, ok := x.Tuple.(*ssa.Call); ok && x.Index == 0 {
+				if cal := c.Call.StaticCallee(); cal != nil && deflating[cal] {
+					return true
+				}
+			}
+		case *ssa.Phi:
+			for _, e := range x.Edges {
+				if !deflated(e, seen) {
+					return false
+				}
+			}
+			return true
+		}
+		return false
+	}
+	logBranches := func(f *ssa.Function) []*ssa.BasicBlock {
+		var res []*ssa.BasicBlock
+		for _, b := range f.Blocks {
+			iff, ok := b.Instrs[len(b.Instrs)-1].(*ssa.If)
+			if !ok {
+				continue
+			}
+			bo, ok := iff.Cond.(*ssa.BinOp)
+			if !ok || (bo.Op != token.EQL && bo.Op != token.NEQ) {
+				continue
+			}
+			for _, v := range []ssa.Value{bo.X, bo.Y} {
+				if c, ok := v.(*ssa.Const); ok && c.Value != nil && c.Value.ExactString() == "103" {
+					if bo.Op == token.EQL {
+						res = append(res, b.Succs[0])
+					} else {
+						res = append(res, b.Succs[1])
+					}
+				}
+			}
+		}
+		return res
+	}
+	nW, nR := 0, 0
+	for _, f := range p.Funcs {
+		if f.Parent() != nil {
+			continue
+		}
+		fk := funcKey(f)
+		for _, tb := range logBranches(f) {
+			// which side is this: does the branch region deflate / may it inflate?
+			region := map[*ssa.BasicBlock]bool{}
+			for _, b := range f.Blocks {
+				if tb.Dominates(b) {
+					region[b] = true
+				}
+			}
+			deflates, inflates := false, false
+			for b := range region {
+				for _, ins := range b.Instrs {
+					ci, ok := ins.(ssa.CallInstruction)
+					if !ok {
+						continue
+					}
+					cal := ci.Common().StaticCallee()
+					if cal == nil {
+						continue
+					}
+					k := funcKey(cal)
+					if k == "compress/zlib.NewWriterLevel" || k == "compress/zlib.NewWriter" || deflating[cal] {
+						deflates = true
+					}
+					if k == "compress/zlib.NewReader" || inflating[cal] {
+						inflates = true
+					}
+				}
+			}
+			if deflates {
+				for b := range region {
+					ret, ok := b.Instrs[len(b.Instrs)-1].(*ssa.Return)
+					if !ok || len(ret.Results) == 0 {
+						continue
+					}
+					nW++
+					key := fk + " / a finished log block is the deflater's output"
+					if !deflated(ret.Results[0], map[ssa.Value]bool{}) {
+						r.violate("LOG-DEFLATED", key, p.pos(ret.Pos()), "a block of the log type can be handed out as it was assembled (not as the output of the deflater): the format has no stored log block and the C reader inflates every log block, so such a table cannot be read there", nil)
+					} else {
+						r.ok("LOG-DEFLATED", key, "type = log => the bytes returned are the deflater's buffer")
+					}
+				}
+			}
+			if inflates || (!deflates && calls(f, "compress/zlib.NewReader")) || anyInflatingCallee(f, inflating) && !deflates {
+				// from the branch, a successful return must pass the inflater
+				nR++
+				key := fk + " / a log block is always inflated"
+				bad := token.NoPos
+				seen := map[*ssa.BasicBlock]bool{}
+				var dfs func(b *ssa.BasicBlock)
+				dfs = func(b *ssa.BasicBlock) {
+					if seen[b] || bad.IsValid() {
+						return
+					}
+					seen[b] = true
+					for _, ins := range b.Instrs {
+						if ci, ok := ins.(ssa.CallInstruction); ok {
+							if cal := ci.Common().StaticCallee(); cal != nil && (funcKey(cal) == "compress/zlib.NewReader" || inflating[cal]) {
+								return
+							}
+						}
+					}
+					if ret, ok := b.Instrs[len(b.Instrs)-1].(*ssa.Return); ok {
+						last := ret.Results[len(ret.Results)-1]
+						if c, ok := last.(*ssa.Const); ok && c.IsNil() {
+							bad = ret.Pos()
+							if !bad.IsValid() {
+								bad = f.Pos()
+							}
+						}
+						return
+					}
+					for _, su := range b.Succs {
+						dfs(su)
+					}
+				}
+				dfs(tb)
+				if bad.IsValid() {
+					r.violate("LOG-DEFLATED", key, p.pos(bad), "a block of the log type can be opened successfully without inflating it: the reader accepts tables that the format (and the C implementation) does not", nil)
+				} else {
+					r.ok("LOG-DEFLATED", key, "type = log => no successful return is reached without the inflater")
+				}
+			}
+		}
+	}
+	r.floor("LOG-DEFLATED.writer", nW, 1, "returns of the block finisher on the log-type branch")
+	r.floor("LOG-DEFLATED.reader", nR, 1, "log-type branches of the block opener")
+}
+
+func anyInflatingCallee(f *ssa.Function, inflating map[*ssa.Function]bool) bool {
+	for _, b := range f.Blocks {
+		for _, ins := range b.Instrs {
+			if ci, ok := ins.(ssa.CallInstruction); ok {
+				if cal := ci.Common().StaticCallee(); cal != nil && inflating[cal] {
+					return true
+				}
+			}
+		}
+	}
+	return false
+}
+
+// isLogIn: the function compares something with the log block type itself.
+func isLogIn(f *ssa.Function) bool {
+	for _, b := range f.Blocks {
+		for _, ins := range b.Instrs {
+			bo, ok := ins.(*ssa.BinOp)
+			if !ok {
+				continue
+			}
+			for _, v := range []ssa.Value{bo.X, bo.Y} {
+				if c, ok := v.(*ssa.Const); ok && c.Value != nil && c.Value.ExactString() == "103" {
+					return true
+				}
+			}
+		}
+	}
+	return false
+}
